@@ -1153,7 +1153,7 @@ def assigned_in(fnode):
     return assigned_names(fnode.body)
 
 
-BUILTIN_NAMES = {"len", "min", "max", "abs", "int", "bool", "bytes", "list", "tuple", "set", "dict", "sorted", "range",
+BUILTIN_NAMES = {"pow", "len", "min", "max", "abs", "int", "bool", "bytes", "list", "tuple", "set", "dict", "sorted", "range",
                  "round", "enumerate", "zip", "isinstance", "float", "str", "next", "filter", "map", "any", "all",
                  "sum", "print", "repr", "ord", "chr", "getattr", "hasattr", "id", "iter", "reversed", "divmod",
                  "ValueError", "TypeError", "KeyError", "IndexError", "AssertionError", "Exception", "bytearray",
